@@ -5,6 +5,7 @@ from ..expr import show, walk, last, field_of, strip_wrappers, strip_casts, shor
 from ..facts import AnalysisBroken
 from ..predabs import Vocab, PredAbs, A, Not, And, Or, T, F
 from ..rules import common
+from ..locks import LOCK_TYPES
 
 TITLE = "The key-value store is a map with absolute expiry, across restarts"
 TECHNIQUE = 'custom static analysis over clang-14 CFG facts: must-lockset lock table, finite predicate abstraction (expiry facts) over every read API, dataflow shape rules for TTL writes, clock-independence of replay'
@@ -25,7 +26,13 @@ EXPLANATION = (
     "inside the replay loops no decision depends on `now`, expiry is applied once by a sweep after the whole history, on the `<= now` "
     "side; compaction keeps exactly `expiry > now`; R5 eviction erases only behind the generation test (timer id equals the captured id) "
     "and `expiry <= now`, and the store never uses TimingWheel::reschedule; R6 keys dropped at compaction are excluded from the snapshot "
-    "and leave memory only after the rename.")
+    "and leave memory only after the rename; R12 every normal return of the plain set, and every iteration of the plain setBatch's apply loop, has removed the key's expiry entry "
+    "(inline or through a helper that always does), so a 'nothing to write' shortcut cannot report success while the key keeps its deadline.")
+# exempt from the function-inventory guard (report.py): these rules hold for, or look into, functions they have never seen
+FOLLOWS_HELPERS = {"C12-R2": "the expiry test is recognised inline or through bool helpers of the store whose returns decide it exactly (predicate_summary); a report site behind a helper that reads the expiry map "
+                             "in a shape the rule cannot summarise is refused, a report site that moved out of the API's own body is refused",
+                   "C12-R1": "universal lock table: every access to a guarded field is judged where it stands; a private helper's lockset is what all of its call sites hold (StoreLocks), constructor-time code is derived from the call graph",
+                   "C12-R12": "the removal of the expiry entry is recognised inline or through any helper of the store that removes it for its key parameter on all of its normal paths (clear_sites)"}
 NOT_DECIDED = ["agreement with a reference map over all histories", "binary exactness of values (lengths: C11-R5)", "wall-clock jumps",
                "concurrent-reader linearizability beyond the lock table"]
 
@@ -50,12 +57,266 @@ def kvf(ctx, name, nparams=None):
     return fs[0]
 
 
+# ------------------------------------------------------------------ call following (helper extraction must not change a verdict)
+
+def kv_callee(fb, n):
+    """the one analysable definition of the KVStore method a call node resolves to (None: not a call into the store's own code)"""
+    if n is None or n.get("k") not in ("mcall", "call"):
+        return None
+    c = n.get("callee") or ""
+    if not c.startswith(KV + "::"):
+        return None
+    fs = [g for g in fb.funcs(c, KVF) if g.ok and g.kind != "lambda" and len(g.params) == len(n.get("args", []))]
+    return fs[0] if len(fs) == 1 else None
+
+
+def arg_var(a):
+    """the variable an expression hands on unchanged (through casts, std::move and copy construction), else None"""
+    a = strip_casts(strip_wrappers(a)) if a is not None else None
+    while a is not None and a.get("k") == "ctor" and a.get("copy") and len([x for x in a.get("args", []) if not x.get("def")]) == 1:
+        a = strip_casts(strip_wrappers(a["args"][0]))
+    return a if a is not None and a.get("k") == "var" else None
+
+
+def kv_methods_reached(fb, f, stop=()):
+    """f and the store's own methods reachable from it through direct calls (lambdas created on the way included)"""
+    seen, work, out = set(), [f], []
+    while work:
+        g = work.pop()
+        if g.sig in seen or g.name in stop:
+            continue
+        seen.add(g.sig)
+        out.append(g)
+        for n in g.nodes.values():
+            h = kv_callee(fb, n)
+            if h is not None and h.sig not in seen:
+                work.append(h)
+        for (ln, lf) in g.lambdas:
+            if lf.ok and lf.sig not in seen:
+                work.append(lf)
+    return out
+
+
+_INSERTS = ("emplace", "insert", "try_emplace", "insert_or_assign", "swap", "operator=", "operator[]", "merge")
+
+
+def may_insert(fb, f, field):
+    """f, or a method of the store it calls, can add an entry to the map `field` (operator[] inserts when the key is missing)"""
+    for g in kv_methods_reached(fb, f):
+        if common.member_calls_on(g, field, _INSERTS):
+            return True
+    return False
+
+
+def is_lookup(n, field, kd):
+    """`field.find(K)` with K the variable whose declaration id is kd"""
+    n = strip_casts(strip_wrappers(n)) if n is not None else None
+    while n is not None and n.get("k") == "ctor" and n.get("copy") and len(n.get("args", [])) == 1:
+        n = strip_casts(strip_wrappers(n["args"][0]))
+    if n is None or n.get("k") != "mcall" or last(n.get("callee", "")) != "find" or field_of(n.get("obj")) != field or not n.get("args"):
+        return False
+    a = arg_var(n["args"][0])
+    return a is not None and (kd is None or a.get("d") == kd)
+
+
+def clear_sites(fb, f, field, kd, depth=0):
+    """elements of f after which the map `field` certainly holds no entry for the key in the variable with declaration id kd:
+    `field.erase(K)`, `field.erase(it)` with `it = field.find(K)`, `field.clear()`, or a call of one of the store's own methods
+    that does one of these for the parameter K is bound to on every path that returns normally (so an extracted
+    `clearExpiryLocked(key)` / `forgetKeyLocked(key)` counts as what it does, and a helper that only sometimes erases does not)"""
+    its = {v["d"] for e in f.stmts() if e.node.get("k") == "decl" for v in e.node["vars"] if is_lookup(v.get("init"), field, kd)}
+    out = []
+    for e in f.stmts():
+        n = e.node
+        if n.get("k") != "mcall":
+            continue
+        if field_of(n.get("obj")) == field:
+            m = last(n.get("callee", ""))
+            a = arg_var(n["args"][0]) if n.get("args") else None
+            if m == "clear" or (m == "erase" and a is not None and (a.get("d") == kd or a.get("d") in its)):
+                out.append(e)
+        elif depth < 3:
+            g = kv_callee(fb, n)
+            if g is None:
+                continue
+            for i, a in enumerate(n["args"]):
+                av = arg_var(a)
+                if av is not None and av.get("d") == kd and clear_abs(fb, g, field, g.params[i]["d"], depth + 1).exit_entails(EXPIRY_GONE):
+                    out.append(e)
+                    break
+    return out
+
+
+def expiry_clear_sites(fb, f, kd, depth=0):
+    return clear_sites(fb, f, KV + "::_expiry", kd, depth)
+
+
+EXPIRY_GONE = Or(A("cleared"), Not(A("hasexp")))
+
+
+def expiry_clear_abs(fb, f, kd, depth=0, reset_at=()):
+    return clear_abs(fb, f, KV + "::_expiry", kd, depth, reset_at)
+
+
+def clear_abs(fb, f, field, kd, depth=0, reset_at=()):
+    """predicate abstraction of f over {cleared: the entry of key K in the map `field` was removed and not put back; hasexp: K has an
+    entry there}.  `reset_at`: elements at which K starts to name another key (the loop variable of a batch loop)."""
+    EXPF = field
+    sites = {id(e) for e in clear_sites(fb, f, field, kd, depth)}
+    puts = {id(e) for e in common.member_calls_on(f, EXPF, _INSERTS)}
+    for e in f.stmts():
+        if id(e) not in sites and e.node.get("k") in ("mcall", "call"):
+            g = kv_callee(fb, e.node)
+            if g is not None and may_insert(fb, g, EXPF):
+                puts.add(id(e))
+    resets = {id(e) for e in reset_at}
+
+    def leaf(n):
+        for (op, l, rr) in common.cmp_both(n):
+            l0, r0 = strip_casts(strip_wrappers(l)), strip_casts(strip_wrappers(rr))
+            if r0.get("k") == "mcall" and last(r0.get("callee", "")) in ("end", "cend") and field_of(r0.get("obj")) == EXPF and op in ("==", "!="):
+                return Not(A("hasexp")) if op == "==" else A("hasexp")
+            if l0.get("k") == "mcall" and last(l0.get("callee", "")) == "count" and field_of(l0.get("obj")) == EXPF and const_value(r0) == 0 and op in ("==", "!=", ">"):
+                return Not(A("hasexp")) if op == "==" else A("hasexp")
+        if n.get("k") == "mcall" and field_of(n.get("obj")) == EXPF:
+            if last(n.get("callee", "")) == "count":
+                return A("hasexp")
+        return None
+
+    def eff(e):
+        if e.kind != "stmt":
+            return None
+        if id(e) in sites:
+            return [("set", "cleared", True), ("set", "hasexp", False)]
+        if id(e) in resets:
+            return [("set", "cleared", False), ("havoc", "hasexp")]
+        if id(e) in puts:
+            return [("set", "cleared", False), ("set", "hasexp", True)]
+        if e.node.get("k") == "decl" and any(is_lookup(v.get("init"), EXPF, None) for v in e.node["vars"]):
+            return [("havoc", "hasexp"), ("assume", Or(Not(A("cleared")), Not(A("hasexp"))))]
+        return None
+    return PredAbs(f, Vocab(["hasexp", "cleared"]), leaf, eff, init=Not(A("cleared")), track_bools=True)
+
+
+def through_const_local(f, n):
+    """the expression a value stands for: a local that is initialised once and never assigned again is replaced by its initialiser (repeatedly)"""
+    assigned = _assigned_ids(f)
+    for _ in range(4):
+        n = strip_casts(strip_wrappers(n)) if n is not None else None
+        if n is None or n.get("k") != "var" or n.get("d") in assigned:
+            return n
+        init = next((v.get("init") for e in f.stmts() if e.node.get("k") == "decl" for v in e.node["vars"] if v["d"] == n.get("d")), None)
+        if init is None:
+            return n
+        n = init
+    return n
+
+
+def natural_loop(f, head):
+    """(blocks of the natural loop with header `head`, sources of its back edges) — dominance based, exception edges ignored"""
+    from ..cfg import dominators
+    dom = dominators(f, eh=False)
+    backs = [p for p in head.preds if head.id in dom.get(p, ())]
+    body, work = {head.id}, list(backs)
+    while work:
+        b = work.pop()
+        if b in body:
+            continue
+        body.add(b)
+        work.extend(f.blocks[b].preds)
+    return body, backs
+
+
+def loop_heads(f):
+    return [b for b in f.blocks.values() if b.term and b.term.get("k") in ("ForStmt", "WhileStmt", "CXXForRangeStmt", "DoStmt") and len(b.succs) == 2]
+
+
+class StoreLocks:
+    """The must-lockset analysis with one refinement for the private helpers of the store.  The entry lockset of a helper is the intersection over
+    its call sites of (mutex, mode) pairs, so a predicate helper that is called under the shared lock by the readers and under the exclusive lock
+    by the writers (`isExpiredLocked`) is left with nothing.  Here the question 'is M held in at least mode m at element e of helper h' is
+    answered the way it is meant: h does not give M up between its entry and e, and every call site of h holds M in at least mode m."""
+
+    def __init__(self, la):
+        self.la, self.aliases, self._memo, self._fl = la, la.aliases, {}, {}
+
+    def fn(self, f):
+        return self.la.fn(f)
+
+    def entry(self, f):
+        return self.la.entry(f)
+
+    def mutexes(self, f, e):
+        return set(self.la.mutexes(f, e)) | {m for m in (M, CMx, EM) if self.holds(f, e, m)}
+
+    def holds(self, f, e, mutex, mode=None, depth=0):
+        if self.la.holds(f, e, mutex, mode):
+            return True
+        if depth > 4 or not self.la._is_internal(f):
+            return False
+        from ..locks import FnLocks
+        k = (f.sig, mutex, mode)
+        if k not in self._fl:
+            self._fl[k] = FnLocks(f, frozenset({(mutex, "x" if mode == "x" else "s", 0)}), self.aliases)
+        if not self._fl[k].holds(e, mutex, mode):
+            return False          # released inside the helper before e
+        k2 = (f.sig, mutex, mode, "sites")
+        if k2 not in self._memo:
+            self._memo[k2] = False      # recursion guard
+            sites = self.la._sites(f)
+            self._memo[k2] = bool(sites) and all(self.holds(g, ce, mutex, mode, depth + 1) for (g, ce) in sites)
+        return self._memo[k2]
+
+
+def ctor_time_functions(fb):
+    """{qualified name: reason}: the private methods of the store that only run while the constructor is still alone with the object — every
+    caller is the constructor, at a point that no path from a thread start reaches, or another such method; and the method starts no thread
+    itself.  (Derived, so that splitting load() into loadSnapshot()/replayLog() does not turn constructor-time replay into unlocked accesses.)"""
+    from .. import callgraph
+    cg = callgraph.get(fb)
+    ctors = [f for f in fb.methods_of(KV) if f.kind == "ctor" and f.ok]
+    memo = {}
+
+    def thread_start(n):
+        return n.get("k") == "ctor" and n.get("cls") == "std::thread" and bool([a for a in n.get("args", []) if not a.get("def")])
+
+    def starts_thread(g):
+        if g.sig not in memo:
+            memo[g.sig] = any(thread_start(n) for h in kv_methods_reached(fb, g) for n in h.nodes.values())
+        return memo[g.sig]
+    out, changed = {}, True
+    while changed:
+        changed = False
+        for g in fb.methods_of(KV):
+            if not g.ok or g.kind != "method" or g.access == "public" or g.name in out or starts_thread(g):
+                continue
+            callers = cg.callers.get(g.name, [])
+            ok = bool(callers)
+            for (c, e, n) in callers:
+                if c.name in out:
+                    continue
+                if not any(c is x for x in ctors):
+                    ok = False
+                    break
+                starts = [x for x in c.stmts() if x is not e and (thread_start(x.node) or (kv_callee(fb, x.node) is not None and starts_thread(kv_callee(fb, x.node))))]
+                if any(search(c, t, lambda y: y is e) is not None for t in starts):
+                    ok = False
+                    break
+            if ok:
+                out[g.name] = "runs only inside the constructor before any thread is started (callers: %s)" % ", ".join(sorted({short(c.name) for (c, e, n) in callers}))
+                changed = True
+    return out
+
+
 def r1(ctx, r):
-    fb, la = ctx.fb(), ctx.locks()
+    fb, la = ctx.fb(), StoreLocks(ctx.locks())
+    # constructor-time replay (load() and whatever it is split into) runs before the object is shared: derived from the call graph, not listed.  If load()
+    # gains a caller outside the constructor, or runs after a thread was started, it is no longer exempt and its unlocked accesses are reported.
+    if not [f for f in fb.methods_of(KV) if f.kind == "ctor" and f.ok]:
+        raise AnalysisBroken("KVStore: no analysable constructor")
+    ctor_time = ctor_time_functions(fb)
     for fld in ("_kv", "_expiry"):
-        common.guarded_by(r, fb, la, KV + "::" + fld, M, mode_for_write="x", mode_for_read="s", files=[KVF],
-                          exempt={KV + "::load": "constructor-time replay before the object is shared",
-                                  KV + "::dropExpiredAfterReplay": "called only from load() (constructor-time replay)"})
+        common.guarded_by(r, fb, la, KV + "::" + fld, M, mode_for_write="x", mode_for_read="s", files=[KVF], exempt=ctor_time)
     common.guarded_by(r, fb, la, KV + "::_ttlStarted", M, mode_for_write="x", mode_for_read="s", files=[KVF])
     common.guarded_by(r, fb, la, KV + "::_logStream", M, mode_for_write="x", mode_for_read="x", files=[KVF],
                       exempt={KV + "::openLogFile": "called from the constructor and from compactLocked (which holds _mutex: C11-R4)", KV + "::shutdown": "after every worker is joined"})
@@ -110,107 +371,537 @@ def _now_ok(f):
     return True
 
 
-def expiry_leaf(n):
-    """atoms: hasexp (an expiry entry was found), live (expiry > now), clive (cached expiry > now)"""
-    cp = common.cmp_parts(n)
-    if cp:
-        op, l, rr = cp
-        ls, rs = strip_casts(strip_wrappers(l)), strip_casts(strip_wrappers(rr))
-        lt, rt = show(ls), show(rs)
+# ------------------------------------------------------------------ expiry facts (A5), by what the code does rather than how its locals are called
 
-        def is_now(x, t):
-            return t == "now" or (x.get("k") == "call" and x.get("callee", "").endswith("system_clock::now"))
-        for (a, at, b, bt, o) in ((ls, lt, rs, rt, op), (rs, rt, ls, lt, {"<": ">", ">": "<", "<=": ">=", ">=": "<=", "==": "==", "!=": "!="}[op])):
-            fld = field_of(a) if a.get("k") == "member" else None
-            if fld in (EXP, CEXP) and is_now(b, bt):
-                atom = "live" if fld == EXP else "clive"
-                if o == ">":
-                    return A(atom)
-                if o == "<=":
-                    return Not(A(atom))
-                return None
-        if ("_expiry.end()" in rt or "_expiry.end()" in lt) and op in ("==", "!="):
-            return Not(A("hasexp")) if op == "==" else A("hasexp")
-        if ("_cache.end()" in rt or "_cache.end()" in lt) and op in ("==", "!="):
-            return Not(A("chit")) if op == "==" else A("chit")
+EXPF, KVFLD, CACHEF = KV + "::_expiry", KV + "::_kv", KV + "::_cache"
+BASE_ATOMS = ["hasexp", "live", "eq", "chit", "clive"]      # eq: deadline == clock reading (so that `>=` / `<` are exact too: a wrong-side test inside a helper is a verdict, not an unknown)
+LIVE_XOR_EQ = Not(And(A("live"), A("eq")))
+
+
+def is_clock_call(n):
+    n = strip_casts(strip_wrappers(n)) if n is not None else None
+    while n is not None and n.get("k") == "ctor" and n.get("copy") and len(n.get("args", [])) == 1:
+        n = strip_casts(strip_wrappers(n["args"][0]))
+    return n is not None and n.get("k") == "call" and n.get("callee") == "std::chrono::system_clock::now"
+
+
+def _assigned_ids(f):
+    out = set()
+    for n in f.nodes.values():
+        if n.get("k") in ("bin", "opcall") and n.get("op") in ("=", "+=", "-=", "*=", "/=", "++", "--"):
+            l = strip_wrappers(n.get("lhs") or (n.get("args") or [None])[0])
+            if l is not None and l.get("k") == "var":
+                out.add(l.get("d"))
+        if n.get("k") == "un" and ("++" in n.get("op", "") or "--" in n.get("op", "")):
+            l = strip_wrappers(n.get("v"))
+            if l is not None and l.get("k") == "var":
+                out.add(l.get("d"))
+    return out
+
+
+def clock_ids(fb, f, depth=0):
+    """declaration ids of the locals and parameters of f that hold an unmodified reading of system_clock::now(): `const auto t = system_clock::now()`
+    never assigned afterwards, and — in a non-public method of the store — a time_point parameter to which every call site passes such a reading
+    (`isExpiredAt(key, now)`).  What the variable is called plays no role."""
+    key = "_c12_clock"
+    if key in f.__dict__:
+        return f.__dict__[key]
+    f.__dict__[key] = set()       # recursion guard
+    out, assigned = set(), _assigned_ids(f)
+    for e in f.stmts():
+        if e.node.get("k") == "decl":
+            for v in e.node["vars"]:
+                if v.get("init") is not None and is_clock_call(v["init"]) and v["d"] not in assigned:
+                    out.add(v["d"])
+    if depth < 3 and f.kind != "lambda" and f.access in ("private", "protected") and f.cls == KV:
+        from .. import callgraph
+        sites = [(g, n) for (g, e, n) in callgraph.get(fb).callers.get(f.name, []) if g.ok and len(n.get("args", [])) == len(f.params)]
+        for i, p_ in enumerate(f.params):
+            if "time_point" not in p_.get("t", "") or p_.get("d") in assigned or not sites:
+                continue
+            ok = True
+            for (g, n) in sites:
+                a = n["args"][i]
+                av = arg_var(a)
+                if not (is_clock_call(a) or (av is not None and av.get("d") in clock_ids(fb, g, depth + 1))):
+                    ok = False
+            if ok:
+                out.add(p_["d"])
+    f.__dict__[key] = out
+    return out
+
+
+def _dnf(pairs, atoms):
+    """formula that holds exactly for the given truth assignments (tuples, in the order of `atoms`)"""
+    out = F
+    for asg in sorted(pairs):
+        out = Or(out, And(*[A(a) if v else Not(A(a)) for a, v in zip(atoms, asg)]))
+    return out
+
+
+class ExpiryFacts:
+    """Path-by-path knowledge of one function of the store about the key it is looking at: hasexp (an expiry entry was found), live (its
+    deadline > the clock reading), chit / clive (the same for the read cache).  Recognised by meaning: the end() of the very map that was
+    searched, `count(k)`, the field ExpiryEntry::expiry / CacheEntry::expiry compared with a value that IS system_clock::now() (clock_ids), a
+    condition kept in a named bool, and — helper extraction — a bool method of the store whose own returns decide these atoms
+    (`isExpiredLocked(key)`, `isExpiredAt(key, now)`): the call then stands for a fresh lookup with the summarised outcome."""
+
+    def __init__(self, fb, f, depth=0, extra_eff=None, atoms=None):
+        self.fb, self.f, self.depth, self.extra_eff = fb, f, depth, extra_eff
+        self.clock = clock_ids(fb, f)
+        self.summ = {}
+        self.opaque = []      # calls of helpers of the store that look at the expiry map but whose outcome this abstraction cannot summarise
+        for e in f.stmts():
+            g = kv_callee(fb, e.node) if depth < 3 else None
+            if g is None or g is f:
+                continue
+            s_ = predicate_summary(fb, g, depth + 1) if (e.node.get("t") or "") == "bool" else None
+            if s_ is not None:
+                self.summ[e.node["id"]] = s_
+            elif any(n.get("k") == "member" and n.get("n") in (EXPF, EXP) and not common.field_writes(x, EXPF) for x in kv_methods_reached(fb, g) for n in x.nodes.values()):
+                self.opaque.append(e)
+        # the key each lookup in the expiry map is made with (find / count / predicate helper): when all of them use one and the same variable, a second
+        # lookup (`if (_expiry.count(k) == 0) …; auto it = _expiry.find(k);`) asks about the same entry and does not invalidate what the first established
+        kids = set()
+        for n in f.nodes.values():
+            if n.get("k") == "mcall" and field_of(n.get("obj")) == EXPF and last(n.get("callee", "")) in ("find", "count") and n.get("args"):
+                v = arg_var(n["args"][0])
+                kids.add(v.get("d") if v is not None else None)
+            elif n.get("id") in self.summ:
+                ks = [arg_var(a) for a in n.get("args", []) if "basic_string" in (strip_casts(strip_wrappers(a)) or {}).get("t", "")]
+                kids.add(ks[0].get("d") if len(ks) == 1 and ks[0] is not None else None)
+        self.one_key = len(kids) == 1 and None not in kids and not (kids & _assigned_ids(f))
+        self.pa = PredAbs(f, Vocab(list(atoms or BASE_ATOMS)), self.leaf, self.eff, init=LIVE_XOR_EQ, track_bools=True)
+
+    def is_now(self, x):
+        v = arg_var(x)
+        return is_clock_call(x) or (v is not None and v.get("d") in self.clock)
+
+    def leaf(self, n):
+        for (op, l, rr) in common.cmp_both(n):
+            l0, r0 = strip_casts(strip_wrappers(l)), strip_casts(strip_wrappers(rr))
+            fld = l0.get("n") if l0.get("k") == "member" else None
+            if fld == CEXP and self.is_now(rr):
+                return A("clive") if op == ">" else (Not(A("clive")) if op == "<=" else None)
+            if fld == EXP and self.is_now(rr):
+                return {">": A("live"), "<=": Not(A("live")), ">=": Or(A("live"), A("eq")), "<": And(Not(A("live")), Not(A("eq"))), "==": A("eq"), "!=": Not(A("eq"))}[op]
+            if r0.get("k") == "mcall" and last(r0.get("callee", "")) in ("end", "cend") and op in ("==", "!="):
+                atom = {EXPF: "hasexp", CACHEF: "chit"}.get(field_of(r0.get("obj")))
+                if atom:
+                    return Not(A(atom)) if op == "==" else A(atom)
+            if l0.get("k") == "mcall" and last(l0.get("callee", "")) == "count" and const_value(r0) == 0 and op in ("==", "!=", ">"):
+                atom = {EXPF: "hasexp", CACHEF: "chit"}.get(field_of(l0.get("obj")))
+                if atom:
+                    return Not(A(atom)) if op == "==" else A(atom)
+        if n.get("k") == "mcall" and last(n.get("callee", "")) == "count":
+            atom = {EXPF: "hasexp", CACHEF: "chit"}.get(field_of(n.get("obj")))
+            if atom:
+                return A(atom)
+        if n.get("id") in self.summ:
+            return self.summ[n["id"]]
+        return None
+
+    def eff(self, e):
+        ops = list((self.extra_eff(e) if self.extra_eff else None) or [])
+        if e.kind == "stmt":
+            n = e.node
+            if n.get("k") == "decl":
+                for v in n["vars"]:
+                    i = v.get("init")
+                    # a fresh lookup / a new loop iteration invalidates what was known about the previous key
+                    if (is_lookup(i, EXPF, None) and not self.one_key) or v["n"].startswith("__begin") or (i is not None and any(x.get("k") == "var" and x.get("n", "").startswith("__begin") for x in walk(i))):
+                        ops += [("havoc_all", ["hasexp", "live", "eq"]), ("assume", LIVE_XOR_EQ)]
+                    if is_lookup(i, CACHEF, None):
+                        ops.append(("havoc_all", ["chit", "clive"]))
+            elif n.get("id") in self.summ and not self.one_key:
+                ops += [("havoc_all", ["hasexp", "live", "eq"]), ("assume", LIVE_XOR_EQ)]
+        return ops or None
+
+    def entails_when(self, elem, cond, truth, goal):
+        """goal holds on every path that reaches elem and on which the expression `cond` evaluates to `truth` (cond None: on every path)"""
+        from ..predabs import translate, known_when
+        st = self.pa.before(elem)
+        if st is None:
+            return True
+        if cond is not None:
+            st = self.pa.v.assume(st, known_when(translate(cond, self.pa.leaf), truth))
+        return self.pa.v.entails(st, goal)
+
+
+def predicate_summary(fb, g, depth=1):
+    """For a bool method g of the store: the formula over {hasexp, live, eq} that holds exactly when g returns true — computed from g's own
+    returns by the same abstraction (None when g's result is not an exact function of these atoms, e.g. it does not look at expiry at all)."""
+    key = "_c12_summary"
+    if key in g.__dict__:
+        return g.__dict__[key]
+    g.__dict__[key] = None
+    from ..predabs import translate, known_when
+    if not any(n.get("k") == "member" and n.get("n") in (EXP, EXPF) for n in g.nodes.values()) and not any(kv_callee(fb, n) is not None for n in g.nodes.values()):
+        return None
+    if common.field_writes(g, EXPF) or common.field_writes(g, KVFLD):
+        return None
+    ef = ExpiryFacts(fb, g, depth)
+    v = ef.pa.v
+    tmask = fmask = 0
+    for ret in common.returns(g):
+        st = ef.pa.before(ret)
+        if st is None or ret.node.get("v") is None:
+            continue
+        cv = const_value(ret.node["v"])
+        fm = translate(ret.node["v"], ef.pa.leaf)
+        tmask |= 0 if cv == 0 and fm is None else v.assume(st, known_when(fm, True))
+        fmask |= 0 if cv == 1 and fm is None else v.assume(st, known_when(fm, False))
+    ih, il, ie = v.idx["hasexp"], v.idx["live"], v.idx["eq"]
+
+    def proj(mask):
+        return {((a >> ih) & 1, (a >> il) & 1, (a >> ie) & 1) for a in range(v.size) if mask >> a & 1}
+    ts, fs = proj(tmask), proj(fmask)
+    if not ts or not fs or ts & fs:
+        return None
+    g.__dict__[key] = _dnf(ts, ["hasexp", "live", "eq"])
+    return g.__dict__[key]
+
+
+def returned_locals(f):
+    """declaration ids of the locals a function returns (`return result;`)"""
+    out = set()
+    for ret in common.returns(f):
+        v = arg_var(ret.node.get("v")) if ret.node.get("v") is not None else None
+        if v is not None and not any(p_.get("d") == v.get("d") for p_ in f.params):
+            out.add(v.get("d"))
+    return out
+
+
+def additions_to(f, ids):
+    """elements that put something into one of the local containers `ids` (push_back / emplace / insert / `c[k] = v`)"""
+    out = []
+    for e in f.stmts():
+        n = e.node
+        if n.get("k") == "mcall" and last(n.get("callee", "")) in ("push_back", "emplace_back", "emplace", "insert", "insert_or_assign", "try_emplace", "push_front"):
+            o = arg_var(n.get("obj"))
+            if o is not None and o.get("d") in ids:
+                out.append(e)
+        elif n.get("k") == "opcall" and n.get("op") == "=" and len(n.get("args", [])) == 2:
+            l = strip_wrappers(n["args"][0])
+            if l is not None and l.get("k") == "opcall" and l.get("op") == "[]" and arg_var(l["args"][0]) is not None and arg_var(l["args"][0]).get("d") in ids:
+                out.append(e)
+    return out
+
+
+def is_absent_value(v):
+    """`std::nullopt` / `{}` / a default-constructed optional: the answer 'no such key'"""
+    if v is None:
+        return True
+    if any(x.get("k") in ("gvar", "gref") and x.get("n") == "std::nullopt" for x in walk(v)):
+        return True
+    v0 = strip_casts(strip_wrappers(v))
+    return v0.get("k") in ("zero",) or (v0.get("k") in ("ctor", "ilist") and not [a for a in (v0.get("args") or v0.get("vals") or []) if not a.get("def")])
+
+
+def lambda_function(f, arg):
+    """the Function of a lambda passed as an argument (inline or through a local), None when its body is not in the facts (a generic lambda is a
+    template: only its instantiation inside the algorithm has a body, and that lies outside the extracted sources)"""
+    a = strip_casts(strip_wrappers(arg))
+    while a is not None and a.get("k") == "ctor" and len(a.get("args", [])) == 1:
+        a = strip_casts(strip_wrappers(a["args"][0]))
+    if a is not None and a.get("k") == "var":
+        for e in f.stmts():
+            if e.node.get("k") == "decl":
+                for v in e.node["vars"]:
+                    if v["d"] == a.get("d") and v.get("init") is not None:
+                        a = strip_casts(strip_wrappers(v["init"]))
+    if a is None or a.get("k") != "lambda":
+        return None
+    for (ln, lf) in f.lambdas:
+        if lf.name == a.get("fn") and lf.ok:
+            return lf
     return None
+
+
+def r2_size(fb, r, f):
+    """size = |kv| − |{entries of the expiry map with deadline <= now}|: the subtrahend is a counter incremented only on the `expiry <= now` side of a
+    loop over the expiry map, or the result of std::count_if over the whole expiry map with exactly that predicate"""
+    clock = clock_ids(fb, f)
+
+    def is_now(x):
+        v = arg_var(x)
+        return is_clock_call(x) or (v is not None and v.get("d") in clock)
+
+    def eleaf(n):
+        for (op, l, rr) in common.cmp_both(n):
+            l0 = strip_casts(strip_wrappers(l))
+            if l0.get("k") == "member" and l0.get("n") == EXP and is_now(rr):
+                return {"<=": Not(A("elive")), ">": A("elive")}.get(op)
+        return None
+    rets = common.returns(f)
+    subs = []
+    def is_kv_size(x):
+        x = through_const_local(f, x.node.get("v") or {}) if hasattr(x, "node") else through_const_local(f, x)
+        return x is not None and x.get("k") == "mcall" and last(x.get("callee", "")) == "size" and field_of(x.get("obj")) == KVFLD
+    for x in rets:
+        v = strip_casts(strip_wrappers(x.node.get("v") or {}))
+        if v.get("k") == "bin" and v.get("op") == "-" and is_kv_size(v["lhs"]):
+            subs.append(arg_var(v["rhs"]))
+    r.instance()
+    if len(subs) != 1 or subs[0] is None:
+        if all(is_kv_size(x) for x in rets):
+            r.fail(f, None, "size: result", "size() does not return |kv| minus the expired count")
+            return
+        raise AnalysisBroken("size(): the result is not of the form `_kv.size() - <count of expired entries>` (or it is computed elsewhere): no verdict")
+    cd = subs[0].get("d")
+    init = next((v.get("init") for e in f.stmts() if e.node.get("k") == "decl" for v in e.node["vars"] if v["d"] == cd), None)
+    i0 = strip_casts(strip_wrappers(init)) if init is not None else None
+    if i0 is not None and i0.get("k") == "call" and i0.get("callee") == "std::count_if":
+        a = i0["args"]
+        whole = len(a) == 3 and all(strip_casts(x).get("k") == "mcall" and field_of(strip_casts(x).get("obj")) == EXPF for x in a[:2]) and \
+            last(strip_casts(a[0])["callee"]) in ("begin", "cbegin") and last(strip_casts(a[1])["callee"]) in ("end", "cend")
+        lf = lambda_function(f, a[2]) if len(a) == 3 else None
+        if lf is None:
+            raise AnalysisBroken("size(): the expired count comes from std::count_if with a predicate whose body is not in the facts (generic lambda): which entries it counts cannot be judged")
+        from ..predabs import translate, total
+        ok = whole
+        for ret in common.returns(lf):
+            def lleaf(n, lf=lf):
+                for (op, l, rr) in common.cmp_both(n):
+                    l0 = strip_casts(strip_wrappers(l))
+                    rv = arg_var(rr)
+                    if l0.get("k") == "member" and l0.get("n") == EXP and (is_clock_call(rr) or (rv is not None and any(c.get("n") == rv.get("n") and c.get("d") in clock for c in (lf.lambda_node.get("caps") or [])))):
+                        return {"<=": Not(A("elive")), ">": A("elive")}.get(op)
+                return None
+            fm = total(translate(ret.node.get("v") or {}, lleaf))
+            ok = ok and fm is not None and Vocab(["elive"]).mask(fm) == Vocab(["elive"]).mask(Not(A("elive")))
+        r.expect(ok and bool(common.returns(lf)), f, f.elem_for(i0), "size: expired count", "size() does not count exactly the entries with expiry <= now as expired",
+                 okdesc="size: count_if over _expiry with predicate `expiry <= now`")
+    else:
+        incs = [e for e in f.stmts() if e.node.get("k") == "un" and "++" in e.node["op"] and strip_wrappers(e.node["v"]).get("d") == cd]
+        incs += [e for e in f.stmts() if e.node.get("k") == "bin" and e.node.get("op") == "+=" and strip_wrappers(e.node["lhs"]).get("d") == cd]
+        pa2 = PredAbs(f, Vocab(["elive"]), eleaf,
+                      lambda e: [("havoc", "elive")] if e.kind == "stmt" and e.node.get("k") == "decl" and any(v["n"].startswith("__begin") or "*__begin" in show(v.get("init") or {}) for v in e.node["vars"]) else None, track_bools=True)
+        r.expect(len(incs) == 1 and pa2.entails(incs[0], Not(A("elive"))), f, incs[0] if incs else None, "size: expired count", "size() does not count exactly the entries with expiry <= now as expired",
+                 okdesc="size: ++expired only when expiry <= now")
+    r.instance()
+    r.expect(all(any(y.get("k") == "var" and y.get("d") == cd for y in walk(x.node)) or (is_kv_size(x) and pa_entails_empty(f, x)) for x in rets), f, None, "size: result", "size() does not return |kv| minus the expired count",
+             okdesc="size: _kv.size() - expired (or _kv.size() when no expiry entries exist)")
 
 
 def r2(ctx, r):
     fb = ctx.fb()
-    atoms = ["hasexp", "live", "chit", "clive"]
+    refused = []
     for name in READ_APIS:
         f = kvf(ctx, name)
         r.instance()
         r.expect(_now_ok(f), f, None, "%s: now" % name, "%s compares expiry with something other than an unmodified system_clock::now()" % name, okdesc="%s: now = system_clock::now()" % name)
-
-        def eff(e):
-            # a fresh lookup / a new loop iteration invalidates what was known about the previous key
-            if e.kind == "stmt" and e.node.get("k") == "decl":
-                for v in e.node["vars"]:
-                    i = v.get("init")
-                    if i is not None and ("_expiry.find" in show(i) or v["n"] in ("eit",)):
-                        return [("havoc_all", ["hasexp", "live"])]
-                    if i is not None and "_cache.find" in show(i):
-                        return [("havoc_all", ["chit", "clive"])]
-                    if v["n"].startswith("__begin") or (i is not None and "*__begin" in show(i)):
-                        return [("havoc_all", ["hasexp", "live"])]
-            return None
-        pa = PredAbs(f, Vocab(atoms), expiry_leaf, eff, track_bools=True)
+        if name == "size":
+            try:
+                r2_size(fb, r, f)
+            except AnalysisBroken as ex:      # a refusal for one API must not hide a verdict on the others
+                refused.append(str(ex))
+            continue
+        ef = ExpiryFacts(fb, f)
         live = Or(Not(A("hasexp")), A("live"))
+        # report sites, by what they do: (element, expression that must be true for the key to be reported | None, goal, description)
         reports = []
         if name == "get":
+            # every return that carries a value: out of the cache entry (CacheEntry::value) → the cached deadline was checked; anything else → the store's
             for ret in common.returns(f):
-                t = show(ret.node.get("v") or {})
-                if "cacheIt" in t:
-                    reports.append((ret, And(A("chit"), A("clive")), "cache hit"))
-                elif "it->second" in t:
-                    reports.append((ret, live, "value"))
-        elif name == "getBatch":
-            reports = [(e, live, "result[key] = value") for e in f.stmts() if e.node.get("k") == "opcall" and e.node.get("op") == "=" and "result[" in show(e.node["args"][0])]
+                v = ret.node.get("v")
+                if is_absent_value(v):
+                    continue
+                if arg_var(v) is not None:      # `return out;` with the answer assembled in a local: which paths carry a value is not visible at the return
+                    refused.append("get: returns the local `%s`, a shape this rule does not follow" % arg_var(v).get("n"))
+                    continue
+                if any(x.get("k") == "member" and x.get("n") == KV + "::CacheEntry::value" for x in walk(v)):
+                    reports.append((ret, None, And(A("chit"), A("clive")), "cache hit"))
+                else:
+                    reports.append((ret, None, live, "value"))
+        elif name in ("getBatch", "keys", "keysWithPrefix"):
+            # whatever is added to the container the function returns
+            res = returned_locals(f)
+            reports = [(e, None, live, show(e.node)[:48]) for e in additions_to(f, res)]
         elif name == "exists":
-            reports = [(ret, live, "return true") for ret in common.returns(f) if const_value(ret.node.get("v") or {}) == 1]
-        elif name in ("keys", "keysWithPrefix"):
-            reports = [(e, live, "result.push_back(key)") for e in f.stmts() if e.node.get("k") == "mcall" and last(e.node["callee"]) in ("push_back", "emplace_back") and (e.node.get("obj") or {}).get("n") == "result"]
+            # `return true`, and `return <condition>` on the paths where the condition holds
+            for ret in common.returns(f):
+                v = ret.node.get("v")
+                if v is None or const_value(v) == 0:
+                    continue
+                reports.append((ret, None if const_value(v) == 1 else v, live, "return true" if const_value(v) == 1 else "return %s (true)" % show(v)[:40]))
         elif name == "ttl":
-            reports = [(ret, And(A("hasexp"), A("live")), "remaining") for ret in common.returns(f) if "nullopt" not in show(ret.node.get("v") or {})]
-        elif name == "size":
-            # size = |kv| - |{expired entries}| : the loop counts entries on the `expiry <= now` side
-            incs = [e for e in f.stmts() if e.node.get("k") == "un" and "++" in e.node["op"] and strip_wrappers(e.node["v"]).get("n") == "expired"]
-            pa2 = PredAbs(f, Vocab(["elive"]), lambda n: (lambda cp: ({"<=": Not(A("elive")), ">": A("elive")}.get(cp[0]) if cp and show(strip_casts(cp[1])).endswith("expiry") and show(strip_casts(cp[2])) == "now" else None))(common.cmp_parts(n)),
-                          lambda e: [("havoc", "elive")] if e.kind == "stmt" and e.node.get("k") == "decl" and any(v["n"].startswith("__begin") or "*__begin" in show(v.get("init") or {}) for v in e.node["vars"]) else None)
-            r.instance()
-            r.expect(len(incs) == 1 and pa2.entails(incs[0], Not(A("elive"))), f, incs[0] if incs else None, "size: expired count", "size() does not count exactly the entries with expiry <= now as expired",
-                     okdesc="size: ++expired only when expiry <= now")
-            rets = [ret for ret in common.returns(f)]
-            r.instance()
-            r.expect(any("_kv.size() - expired" in show(x.node) for x in rets) and all("_kv.size()" in show(x.node) for x in rets) and
-                     all(("expired" in show(x.node)) or pa_entails_empty(f, x) for x in rets), f, None, "size: result", "size() does not return |kv| minus the expired count",
-                     okdesc="size: _kv.size() - expired (or _kv.size() when no expiry entries exist)")
-            continue
+            reports = [(ret, None, And(A("hasexp"), A("live")), "remaining") for ret in common.returns(f) if not is_absent_value(ret.node.get("v"))]
         if not reports:
-            r.fail(f, None, "%s: no report site" % name, "%s no longer has a recognisable 'key present' result" % name)
-        for (e, goal, what) in reports:
+            # the result is produced somewhere this rule does not look (e.g. inside a helper): no verdict, and never a pass
+            refused.append("%s no longer has a recognisable 'key present' result in its own body" % name)
+        for (e, cond, goal, what) in reports:
             r.instance()
-            r.expect(pa.entails(e, goal), f, e, "%s reports an expired key" % name, "KVStore::%s reaches `%s` on a path where the key's expiry was not compared with now on the not-expired side "
-                     "(known: %s): a key past its deadline but not yet evicted is observable" % (name, what, ",".join(pa.describe(e)) or "nothing"), okdesc="%s: %s only when not expired" % (name, what))
-    # closed set: the public const-behaving methods that read _kv
+            if not ef.entails_when(e, cond, True, goal) and any(search(f, o, lambda x, e=e: x is e, eh=False) is not None for o in ef.opaque):
+                # the expiry test may sit in a helper of a shape this rule does not summarise (it returns an iterator, an optional, …): a refusal, not a verdict
+                refused.append("%s: `%s` is reached after a call of %s, which reads the expiry map but is not a predicate this rule can summarise" % (name, what, ", ".join(sorted({last(o.node.get("callee", "?")) for o in ef.opaque}))))
+                continue
+            r.expect(ef.entails_when(e, cond, True, goal), f, e, "%s reports an expired key" % name, "KVStore::%s reaches `%s` on a path where the key's expiry was not compared with now on the not-expired side "
+                     "(known: %s): a key past its deadline but not yet evicted is observable" % (name, what, ",".join(ef.pa.describe(e)) or "nothing"), okdesc="%s: %s only when not expired" % (name, what))
+    # closed set: the public const-behaving methods that read _kv (a method that changes _kv itself or through a helper of the store is a writer)
     readers = set()
     for f in fb.methods_of(KV):
         if f.ok and f.access == "public" and any(n.get("k") == "member" and n["n"] == KV + "::_kv" for n in f.nodes.values()):
-            if not [1 for (e, n, k) in common.field_writes(f, KV + "::_kv")]:
+            if not any(common.field_writes(g, KV + "::_kv") for g in kv_methods_reached(fb, f)):
                 readers.add(last(f.name))
     r.instance()
     r.expect(readers <= set(READ_APIS) | {"expireAt", "persist"}, KV, None, "new read API", "public methods %s read _kv but are not in the checked set of read APIs" % sorted(readers - set(READ_APIS) - {"expireAt", "persist"}),
              okdesc="read APIs = %s" % sorted(readers))
+    if refused:
+        raise AnalysisBroken("; ".join(refused))
 
 
 def pa_entails_empty(f, ret):
     # `if (_expiry.empty()) return _kv.size();`
     for b in f.blocks.values():
-        if b.cond is not None and "_expiry.empty()" in show(b.cond) and b.succs[0] is not None and search(f, ("block", b.succs[0]), lambda x: x is ret, eh=False) is not None:
+        c, st, sf = common.branch(b)
+        if c is not None and c.get("k") == "mcall" and last(c.get("callee", "")) == "empty" and field_of(c.get("obj")) == EXPF and st is not None and search(f, ("block", st), lambda x: x is ret, eh=False) is not None:
             return True
     return False
+
+
+def witness_where(f, w):
+    """(element to point at, text of the last decision) for a block-path witness: the `return` the path ends in if there is one, else
+    the last branch it took"""
+    ret, cond = None, None
+    for (bid, i0, i1) in reversed(w or []):
+        b = f.blocks[bid]
+        if ret is None:
+            for e in b.elems[i0:]:
+                if e.kind == "stmt" and e.node.get("k") == "ret":
+                    ret = e
+        if cond is None and b.cond is not None and len(b.succs) == 2 and (bid, i0, i1) != (w or [None])[-1]:
+            cond = b
+        if ret is not None and cond is not None:
+            break
+    txt_ = ""
+    if cond is not None:
+        nxt = None
+        for j, (bid, i0, i1) in enumerate(w):
+            if bid == cond.id and j + 1 < len(w):
+                nxt = w[j + 1][0]
+        side = "" if nxt is None else (" holds" if cond.succs[0] == nxt else " does not hold")
+        txt_ = "`%s`%s" % (show(cond.cond)[:90], side)
+    return (ret if ret is not None else (cond.elems[-1] if cond is not None and cond.elems else None)), txt_
+
+
+def plain_write_key(fb, f, name, stores):
+    """(declaration id of the variable K that indexes the store `_kv[K] = v`, the declaration element of K when it is a loop variable — none
+    when it is a parameter —, the clear/hasexp abstraction of f for K)"""
+    kds = set()
+    for s_ in stores:
+        ix = strip_wrappers(s_.node["args"][0])
+        kv = arg_var(ix["args"][1]) if ix.get("k") == "opcall" and len(ix.get("args", [])) == 2 else None
+        kds.add(kv.get("d") if kv is not None else None)
+    if len(kds) != 1 or None in kds:
+        raise AnalysisBroken("%s: the key of the store into _kv is not one plain variable" % name)
+    kd = kds.pop()
+    decl = []
+    if not any(p.get("d") == kd for p in f.params):
+        decl = [e for e in f.stmts() if e.node.get("k") == "decl" and any(v.get("d") == kd or any(b_.get("d") == kd for b_ in v.get("bindings", [])) for v in e.node["vars"])]
+        if len(decl) != 1:
+            raise AnalysisBroken("%s: the declaration of the key variable of the store into _kv is not recognised" % name)
+    return kd, decl, expiry_clear_abs(fb, f, kd, reset_at=decl)
+
+
+def timer_cancel_sites(fb, f, kd, depth=0):
+    """elements of f that cancel the armed timer of the key in variable kd: cancelTimerLocked(K), or a call of a helper of the store that
+    hands K to cancelTimerLocked before each of its own removals of K's expiry entry"""
+    out = []
+    for e in f.stmts():
+        g = kv_callee(fb, e.node)
+        if g is None:
+            continue
+        for i, a in enumerate(e.node["args"]):
+            av = arg_var(a)
+            if av is None or av.get("d") != kd:
+                continue
+            if g.name == KV + "::cancelTimerLocked":
+                out.append(e)
+            elif depth < 3:
+                pd = g.params[i]["d"]
+                cl, cs = expiry_clear_sites(fb, g, pd, depth + 1), timer_cancel_sites(fb, g, pd, depth + 1)
+                if cl and cs and all(any(elem_dominates(g, c, x) for c in cs) for x in cl):
+                    out.append(e)
+    return out
+
+
+def plain_write_always_clears(fb, r, f, name, stores, kd, decl, pa):
+    """Map semantics of the plain write: once set(k, v) / setBatch({k: v, …}) has returned normally, ttl(k) is none — on EVERY path, not
+    only on the one that stores.  The dominance clause (erase before the store) is satisfied by a shortcut that leaves before the
+    store ('the bytes are identical, nothing to write'): nothing is stored without the erase, yet the call reports success while the
+    key keeps its deadline, its timer and its cached expiry.  Decided here, by one and the same obligation for both forms (siblings
+    must agree): every normal return of the single-key form carries 'the expiry entry of the key parameter was removed and not put
+    back' or 'no entry was found for it'; every way out of an iteration of the batch loop carries it for that iteration's key; and
+    the batch form cannot return without having been through that loop unless the batch is empty.  Removal through a helper of the
+    store counts when the helper removes on all of its own normal paths (expiry_clear_sites)."""
+    r.instance()
+    if not decl:
+        ok = pa.exit_entails(EXPIRY_GONE)
+        w = None
+        if not ok:
+            sites = {id(e) for e in expiry_clear_sites(fb, f, kd)}
+            w = search(f, ("entry",), "exit", stop=lambda x: id(x) in sites, eh=False)
+        where, why = witness_where(f, w)
+        r.expect(ok, f, where, "%s: returns with the expiry in place" % name, "the plain %s can return normally without having removed the key's expiry entry (path taken when %s): the call reports success, but a key that "
+                 "carried a deadline (set with TTL, expireAt) keeps it — ttl() still answers, the key disappears from every read path when the old deadline passes, and it is dropped at compaction and reopen — although "
+                 "a plain write makes the key permanent (as the batch form does)" % (name, why or "?"), witness=witness_str(f, w), okdesc="%s: every normal return is behind _expiry.erase(key) (or no entry found)" % name)
+        return
+    # batch form: K is the variable of a loop over the batch
+    loops = []
+    for h in loop_heads(f):
+        body, backs = natural_loop(f, h)
+        if all(s_.block.id in body for s_ in stores) and backs:
+            loops.append((len(body), h, body, backs))
+    if len(decl) != 1 or not loops:
+        raise AnalysisBroken("%s: the loop that applies the batch is not recognised" % name)
+    _, head, body, backs = min(loops, key=lambda t: t[0])
+    bad = None
+    for bid in sorted(body):
+        b = f.blocks[bid]
+        st = pa.flow.at_block_end(b)
+        if st is None or b is head:
+            continue
+        for si, s in enumerate(b.succs):
+            if s is None or (s in body and not (bid in backs and s == head.id)):
+                continue
+            if s not in body and search(f, ("block", s), "exit", eh=False) is None:
+                continue        # leaves the loop by throwing
+            st2 = pa._edge(st, b, si)
+            if st2 is not None and not pa.v.entails(st2, EXPIRY_GONE):
+                bad = b
+    w = None
+    if bad is not None:
+        sites = {id(e) for e in expiry_clear_sites(fb, f, kd)}
+        w = search(f, decl[0], lambda x: x.block is bad and x.idx == len(bad.elems) - 1, stop=lambda x: id(x) in sites, eh=False)
+    where, why = witness_where(f, (w or []) + [(head.id, 0, None)])
+    r.expect(bad is None, f, where, "%s: an entry of the batch keeps its expiry" % name, "an iteration of the loop in which the plain %s applies the batch can end without having removed that key's expiry entry (path taken "
+             "when %s): the call reports success, but a key that carried a deadline keeps it although a plain write makes it permanent" % (name, why or "?"), witness=witness_str(f, w),
+             okdesc="%s: every iteration of the apply loop passes _expiry.erase(key)" % name)
+    r.instance()
+
+    def empty_batch_edge(b, si):
+        c, st, sf = common.branch(b)
+        c = strip_casts(c) if c is not None else None
+        if c is not None and c.get("k") == "mcall" and last(c.get("callee", "")) == "empty" and arg_var(c.get("obj")) is not None and any(p.get("d") == arg_var(c["obj"]).get("d") for p in f.params):
+            return b.succs[si] != st
+        return True
+    w = search(f, ("entry",), "exit", stop=lambda x: x.block is head, eh=False, edge_ok=empty_batch_edge)
+    where, why = witness_where(f, w)
+    r.expect(w is None, f, where, "%s: returns without applying the batch" % name, "the plain %s can return normally for a non-empty batch without running the loop that stores the values and clears their expiries "
+             "(path taken when %s)" % (name, why or "?"), witness=witness_str(f, w), okdesc="%s: only an empty batch returns before the apply loop" % name)
+
+
+def r12(ctx, r):
+    """a plain write that reports success has removed the key's expiry — on every path, in both forms (plain_write_always_clears)"""
+    fb = ctx.fb()
+    for (name, np) in (("set", 2), ("setBatch", 1)):
+        f = kvf(ctx, name, np)
+        stores = [e for e in f.stmts() if e.node.get("k") == "opcall" and e.node.get("op") == "=" and (access_path(e.node["args"][0]) or ("", ""))[-2:] == (KV + "::_kv", "[]") and not e.catch_id]
+        if not stores:
+            raise AnalysisBroken("%s/%d: no store into _kv" % (name, np))
+        kd, decl, pa = plain_write_key(fb, f, name, stores)
+        plain_write_always_clears(fb, r, f, name, stores, kd, decl, pa)
 
 
 def r3(ctx, r):
@@ -219,16 +910,20 @@ def r3(ctx, r):
     for (name, np) in (("set", 2), ("setBatch", 1)):
         f = kvf(ctx, name, np)
         stores = [e for e in f.stmts() if e.node.get("k") == "opcall" and e.node.get("op") == "=" and (access_path(e.node["args"][0]) or ("", ""))[-2:] == (KV + "::_kv", "[]")]
-        ers = common.member_calls_on(f, KV + "::_expiry", ("erase",))
-        cans = [e for e in f.stmts() if e.node.get("k") == "mcall" and e.node.get("callee") == KV + "::cancelTimerLocked"]
         ucs = [e for e in f.stmts() if e.node.get("k") == "mcall" and e.node.get("callee") == KV + "::updateCache"]
         if not stores:
             raise AnalysisBroken("%s/%d: no store into _kv" % (name, np))
+        if not fb.funcs(KV + "::cancelTimerLocked", KVF):
+            raise AnalysisBroken("KVStore::cancelTimerLocked (the timer cancel the rule is anchored on) no longer exists")
+        # the key K of the store by dataflow (the variable that indexes `_kv[K] = v`); 'expiry entry of K removed' and 'timer of K cancelled' are
+        # recognised inline or through a helper of the store that does it on all of its paths (expiry_clear_sites / timer_cancel_sites)
+        kd, decl, pa = plain_write_key(fb, f, name, stores)
+        cans = timer_cancel_sites(fb, f, kd)
         for s_ in stores:
             if s_.catch_id:
                 continue
             r.instance()
-            ok = any(elem_dominates(f, x, s_) and not x.catch_id for x in ers) and any(elem_dominates(f, x, s_) for x in cans)
+            ok = pa.entails(s_, EXPIRY_GONE) and any(elem_dominates(f, x, s_) for x in cans)
             r.expect(ok, f, s_, "%s: expiry survives overwrite" % name, "a plain %s stores the value without first cancelling the key's timer and erasing its expiry entry: the overwritten key still "
                      "expires at the old deadline" % name, okdesc="%s: cancel + _expiry.erase before _kv[key] = value" % name)
             r.instance()
@@ -285,45 +980,60 @@ def r4(ctx, r):
     ld = kvf(ctx, "load")
     r.instance()
     r.expect(_now_ok(ld), ld, None, "load: now", "load() does not use an unmodified system_clock::now()", okdesc="load: now = system_clock::now()")
-    # replay is a fold over the history: no decision inside the replay loops depends on the clock
-    loops = [b for b in ld.blocks.values() if b.term and b.term["k"] in ("ForStmt", "WhileStmt") and b.succs[0] is not None]
-    replay_loops = [b for b in loops if any("snapshot.read" in show(e.node) or "log.read" in show(e.node) or "log.peek" in show(e.node) for e in b.elems if e.kind == "stmt") or
-                    (b.cond is not None and ("count" in show(b.cond) or "peek" in show(b.cond)))]
+    # replay is a fold over the history: no decision inside the replay loops depends on the clock.  The replay loops are the loops that apply
+    # records to the maps (their bodies write _kv / _expiry), in load() itself or in the private helpers it is split into (loadSnapshot(),
+    # replayLog(), …); the sweep that applies expiry afterwards is not one of them.
+    SWEEP = KV + "::dropExpiredAfterReplay"
+    family = [g for g in kv_methods_reached(fb, ld, stop=(SWEEP,)) if g.kind != "lambda"]
+    replay_loops = []
+    for g in family:
+        wr = [e for fld in (KV + "::_kv", KV + "::_expiry") for (e, n, k) in common.field_writes(g, fld)]
+        for h in loop_heads(g):
+            body, backs = natural_loop(g, h)
+            if backs and any(e.block.id in body for e in wr):
+                replay_loops.append((g, h, body))
     if len(replay_loops) < 2:
         raise AnalysisBroken("load(): %d replay loops recognised" % len(replay_loops))
+
+    def reads_clock(h_):
+        return any(is_clock_call(n) for x in kv_methods_reached(fb, h_) for n in x.nodes.values())
     nclock = 0
-    for lb in replay_loops:
-        body = lb.succs[0]
-        for b in ld.blocks.values():
-            if b.cond is None:
+    for (g, lb, body) in replay_loops:
+        clock = clock_ids(fb, g)
+        for bid in body:
+            b = g.blocks[bid]
+            if b.cond is None or not b.elems:
                 continue
-            inside = search(ld, ("block", body), lambda x, b=b: x in b.elems, stop=lambda x, lb=lb: x in lb.elems, eh=False) is not None if b.elems else False
-            if not inside:
-                continue
-            if any(x.get("k") == "var" and x["n"] == "now" for x in walk(b.cond)):
+            if any((x.get("k") == "var" and x.get("d") in clock) or is_clock_call(x) or (kv_callee(fb, x) is not None and reads_clock(kv_callee(fb, x))) for x in walk(b.cond)):
                 nclock += 1
                 r.instance()
-                r.fail(ld, b.elems[-1], "replay decision depends on the clock", "inside the replay loop `%s` decides by the current time: a record that looks expired may be followed by one that clears or extends "
+                r.fail(g, b.elems[-1], "replay decision depends on the clock", "inside the replay loop `%s` decides by the current time: a record that looks expired may be followed by one that clears or extends "
                        "the expiry (persist / expireAt), so keys are lost across a restart — expiry must be applied once, after the whole history" % show(b.cond)[:60])
     r.instance()
     r.expect(nclock == 0, ld, None, "clock in replay", "replay loops consult the clock", okdesc="replay loops are clock-independent")
-    sweeps = [e for e in ld.stmts() if e.node.get("k") == "mcall" and e.node.get("callee") == KV + "::dropExpiredAfterReplay"]
+    sweeps = [e for e in ld.stmts() if e.node.get("k") == "mcall" and e.node.get("callee") == SWEEP]
+    if not sweeps and any(e.node.get("k") == "mcall" and e.node.get("callee") == SWEEP for g in family for e in g.stmts()):
+        raise AnalysisBroken("load(): the post-replay sweep is called from a helper of load(), a shape this rule does not follow")
     r.instance()
     ok = bool(sweeps)
     if ok:
-        # every normal exit of load passes a sweep, after the loops
+        # every normal exit of load passes a sweep with the clock reading, and nothing is replayed after a sweep: neither a replay loop of load()
+        # itself nor a call of a helper that contains one can be reached from it
         w = search(ld, ("entry",), "exit", stop=lambda x: x in sweeps or (x.kind == "stmt" and x.node.get("k") == "throw"), eh=False)
-        ok = w is None and all(txt(s_.node["args"][0]) == "now" for s_ in sweeps)
+        lclock = clock_ids(fb, ld)
+        ok = w is None and all(arg_var(s_.node["args"][0]) is not None and arg_var(s_.node["args"][0]).get("d") in lclock for s_ in sweeps)
+        has_loop = {g.sig for (g, lb, body) in replay_loops}
+        replays = [e for (g, lb, body) in replay_loops if g is ld for e in lb.elems]
+        replays += [e for e in ld.stmts() if kv_callee(fb, e.node) is not None and any(x.sig in has_loop for x in kv_methods_reached(fb, kv_callee(fb, e.node), stop=(SWEEP,)))]
         for s_ in sweeps:
-            for lb in replay_loops:
-                if search(ld, s_, lambda x, lb=lb: x in lb.elems, eh=False) is not None and "log" in "".join(show(e.node) for e in lb.elems if e.kind == "stmt"):
-                    ok = False
+            if search(ld, s_, lambda x: x in replays, eh=False) is not None:
+                ok = False
     r.expect(ok, ld, None, "no expiry sweep after replay", "load() can finish without dropping the keys that are still expired after the whole history was applied (or sweeps before the log was replayed)",
              okdesc="dropExpiredAfterReplay(now) on every exit, after the replay")
     sw = fb.funcs(KV + "::dropExpiredAfterReplay", KVF)
     if sw:
         f = sw[0]
-        pa = PredAbs(f, Vocab(["hasexp", "live", "chit", "clive"]), expiry_leaf, lambda e: None)
+        pa = ExpiryFacts(fb, f).pa
         ers = common.member_calls_on(f, KV + "::_kv", ("erase",)) + common.member_calls_on(f, KV + "::_expiry", ("erase",))
         r.instance(len(ers))
         for e in ers:
@@ -345,7 +1055,7 @@ def r4(ctx, r):
     if nlog < 4:
         raise AnalysisBroken("only %d expiry-carrying log writes" % nlog)
     cl = kvf(ctx, "compactLocked")
-    pa = PredAbs(cl, Vocab(["hasexp", "live", "chit", "clive"]), expiry_leaf, lambda e: [("havoc_all", ["hasexp", "live"])] if e.kind == "stmt" and e.node.get("k") == "decl" and any(v["n"] == "eit" for v in e.node["vars"]) else None)
+    pa = ExpiryFacts(fb, cl).pa       # a lookup in _expiry (inline or inside a predicate helper of the store) starts the facts afresh for the next key
     surv = [e for e in cl.stmts() if e.node.get("k") == "mcall" and last(e.node["callee"]) == "push_back" and (e.node.get("obj") or {}).get("n") == "survivors"]
     drop = [e for e in cl.stmts() if e.node.get("k") == "mcall" and last(e.node["callee"]) == "push_back" and (e.node.get("obj") or {}).get("n") == "dropped"]
     r.instance(2)
@@ -412,23 +1122,31 @@ def r5(ctx, r):
 
     store_locks = set()
     store_lock_names = {v["n"] for e in f.stmts() if e.node.get("k") == "decl" for v in e.node["vars"]
-                        if v["t"].startswith(("std::unique_lock", "std::shared_lock", "std::lock_guard")) and any(x.get("k") == "member" and x["n"] == M for x in walk(v.get("init") or {}))}
+                        if LOCK_TYPES.match(v["t"]) and any(x.get("k") == "member" and x["n"] == M for x in walk(v.get("init") or {}))}
 
     def eff(e):
         # what was learnt under one hold of the store mutex is stale under the next: a set-with-TTL / expireAt can land in between
         if e.kind == "stmt" and e.node.get("k") == "decl":
             for v in e.node["vars"]:
-                if v["t"].startswith(("std::unique_lock", "std::shared_lock", "std::lock_guard")) and any(x.get("k") == "member" and x["n"] == M for x in walk(v.get("init") or {})):
+                if LOCK_TYPES.match(v["t"]) and any(x.get("k") == "member" and x["n"] == M for x in walk(v.get("init") or {})):
                     store_locks.add(v["d"])
                     return [("havoc_all", ["found", "validid", "sameid", "live"])]
-        if e.kind == "dtor" and e.raw.get("t", "").startswith(("std::unique_lock", "std::shared_lock", "std::lock_guard")) and (e.raw.get("d") in store_locks or e.raw.get("n") in store_lock_names):
+        if e.kind == "dtor" and LOCK_TYPES.match(e.raw.get("t", "")) and (e.raw.get("d") in store_locks or e.raw.get("n") in store_lock_names):
             return [("havoc_all", ["found", "validid", "sameid", "live"])]
         if e.kind == "stmt" and e.node.get("k") == "mcall" and e.node.get("callee", "").startswith(("std::unique_lock::unlock", "std::shared_lock::unlock", "std::unique_lock::lock")):
             return [("havoc_all", ["found", "validid", "sameid", "live"])]
         return None
     pa = PredAbs(f, vocab, leaf, eff, track_bools=True)
-    ers = common.member_calls_on(f, KV + "::_kv", ("erase",)) + common.member_calls_on(f, KV + "::_expiry", ("erase",)) + common.member_calls_on(f, KV + "::_cache", ("erase",))
-    if len(ers) < 3:
+    # the removals of the evicted key from the three maps: inline erases, or calls of a helper of the store that erases its key parameter on all of
+    # its paths (`forgetKeyLocked(key)`); the key is the callback's string parameter
+    kps = [p_ for p_ in f.params if "basic_string" in p_.get("t", "")]
+    if len(kps) != 1:
+        raise AnalysisBroken("evictionCallback: key parameter not recognised")
+    ers, per_field = [], {}
+    for fld in (KV + "::_kv", KV + "::_expiry", KV + "::_cache"):
+        per_field[fld] = clear_sites(fb, f, fld, kps[0]["d"])
+        ers += [e for e in per_field[fld] if not any(e is x for x in ers)]
+    if not all(per_field.values()):
         r.fail(f, None, "eviction incomplete", "evictionCallback does not erase the key from values, expiry map and cache")
     for e in ers:
         r.instance()
@@ -478,9 +1196,19 @@ def r7(ctx, r):
     """journal record layout: the writer emits a field exactly when the replay decoder expects it (both decide by the op code)"""
     fb = ctx.fb()
     wl = kvf(ctx, "writeLogEntry")
-    ld = kvf(ctx, "load")
     common.require_names(wl, ["op", "key", "value", "buffer"])
-    common.require_names(ld, ["op", "ptr", "end"])
+    # the decoder: load() itself, or the helper load() hands the log replay to (the function reached from load() that dispatches on the op code)
+    cands = []
+    for g in kv_methods_reached(fb, kvf(ctx, "load")):
+        try:
+            common.require_names(g, ["op", "ptr", "end"])
+            cands.append(g)
+        except AnalysisBroken:
+            pass
+    if len(cands) != 1:
+        common.require_names(kvf(ctx, "load"), ["op", "ptr", "end"])
+        raise AnalysisBroken("load(): %d functions reached from load() look like the journal decoder" % len(cands))
+    ld = cands[0]
     # writer: flags controlling the optional fields
     flags = {}
     for e in wl.stmts():
@@ -621,8 +1349,12 @@ def r9(ctx, r):
     for b in tests:
         for x in walk(b.cond):
             if x.get("k") == "mcall" and last(x.get("callee", "")) == "compare" and len(x.get("args", [])) >= 3:
+                # compare(0, P.size(), P) with P the prefix parameter; the length may have been hoisted into a local that is never assigned again
                 a = x["args"]
-                ok = const_value(a[0]) == 0 and "prefix.size()" in show(a[1]) and strip_casts(strip_wrappers(a[2])).get("n") == "prefix"
+                pd = {p_.get("d") for p_ in kp.params}
+                ln = through_const_local(kp, a[1])
+                ok = const_value(a[0]) == 0 and ln is not None and ln.get("k") == "mcall" and last(ln.get("callee", "")) in ("size", "length") and arg_var(ln.get("obj")) is not None and \
+                    arg_var(ln["obj"]).get("d") in pd and arg_var(a[2]) is not None and arg_var(a[2]).get("d") == arg_var(ln["obj"]).get("d")
     pushes = [e for e in kp.stmts() if e.node.get("k") == "mcall" and last(e.node.get("callee", "")) in ("push_back", "emplace_back")]
     if not pushes:
         raise AnalysisBroken("keysWithPrefix: result collection not found")
@@ -738,3 +1470,4 @@ def run(ctx, ck):
     ck.run_rule("C12-R10", "persist / expireAt treat an expired, not yet evicted key as absent", "A5 dominating facts; helper summaries (which callee decides 'expired')", lambda r: r10(ctx, r))
     ck.run_rule("C12-R11", "begin()-erase only on a container known non-empty (a size limit of 0 is a valid configuration)", "A5 dominating facts", lambda r: r11(ctx, r))
     ck.run_rule("C12-R6", "keys dropped at compaction never resurrect", "A2", lambda r: r6(ctx, r))
+    ck.run_rule("C12-R12", "a plain write that reports success has removed the key's expiry on every path; set and setBatch agree", "A5 must-pass-through (exit / end-of-iteration states), helper summaries, A11 siblings", lambda r: r12(ctx, r))
